@@ -222,3 +222,36 @@ func TestDebugO02(t *testing.T) {
 		fmt.Println(l)
 	}
 }
+
+// TestDebugS02 prints one "two siblings of an immutable deployment unbound concurrently" story (development aid).
+func TestDebugS02(t *testing.T) {
+	if os.Getenv("VERIF_DEBUG_S02") == "" {
+		t.Skip()
+	}
+	topo := Topo{Pools: []PoolT{{NodeSubnets: []string{"10.49.27.0/24"}, Subnet: "10.0.70.0/24", Gateway: "10.0.70.1",
+		Ranges: [][2]uint32{{0x0a004602, 0x0a004608}}}}, Nodes: []NodeT{{Name: "n0", IP: "10.49.27.3"}}}
+	var story []Op
+	for i := 0; i < 3; i++ {
+		story = append(story, Op{K: "create"}, Op{K: "sched", B: 63})
+	}
+	story = append(story, Op{K: "scale", B: 2}, Op{K: "delete"}, Op{K: "delete"})
+	for i := 0; i < 14; i++ {
+		story = append(story, Op{K: "deliver"})
+	}
+	var sch []int
+	for i := 0; i < 60; i++ {
+		sch = append(sch, i%2)
+	}
+	story = append(story, Op{K: "episode", Sub: []Op{{K: "unbind"}, {K: "unbind"}}, Sched: sch})
+	c := Case{Topo: topo, WLs: []WL{{Kind: "dp", Name: "dz", Policy: "immutable", Replicas: 3}}, NoNameReuse: true, Ops: story}
+	r := &vcore.Rec{}
+	o := &ObsC03{}
+	_, f := runHistory(c, r, o)
+	fmt.Println("failure:", f, "excess:", o.ConcurrentExcess)
+	for _, l := range r.Trace() {
+		if len(l) > 300 {
+			l = l[:300]
+		}
+		fmt.Println(l)
+	}
+}
